@@ -7,8 +7,9 @@ site executed; on the tawazi side all `s<k>` of one function are the same LazyEx
 """
 from __future__ import annotations
 
-CONSTS = [0, 1, 2, "s", "", None, True, False, 3.5, (1, 2)]
-FALSY_TRUTHY = [0, 1, "", "s", None, True, False, [], [0], (), 2.5]
+CONSTS = [0, 1, 2, "s", "", None, True, False, 3.5, (1, 2), 1e-12]
+# (truthy floats that are "almost zero" - 1e-12, the smallest denormal, a rounding residue - are truthy)
+FALSY_TRUTHY = [0, 1, "", "s", None, True, False, [], [0], (), 2.5, 1e-12, 5e-324, -1e-10, 0.0]
 
 
 class Toggle:
